@@ -335,6 +335,40 @@ def headers_equal_as_python_values(ctx, rng):
                         ctx.violation("header-differs-after-verification", f"verified header {canon(back)}, signed with rev={v!r}", {**case, "token": tok})
 
 
+def unusual_rsa_roundtrip(ctx, rng):
+    """RSA keys as other tools make them (moduli of 1030, 2047, 2049, 2050 bits, e = 3 / 17 / 2^32+1), imported as JWK and as PEM: every RS* / PS* algorithm
+    the key is long enough for signs and verifies"""
+    from ..keystrata import UNUSUAL_RSA
+    j = J.load()
+    payload = b"c03 unusual rsa"
+    for kind in UNUSUAL_RSA:
+        jwk = gen.new_rsa_unusual(kind.split(":")[1])
+        bits = int(kind.split(":")[1].split("e")[0])
+        for rep in ("jwk", "pem"):
+            priv = j.key(jwk) if rep == "jwk" else j.RSAKey.import_key(gen.to_pem(jwk))
+            pub = j.key(gen.public_jwk(jwk)) if rep == "jwk" else j.RSAKey.import_key(gen.to_pem(jwk, private=False))
+            for a in ("RS256", "RS384", "RS512", "PS256", "PS384", "PS512"):
+                hl = int(a[2:]) // 8
+                if a.startswith("PS") and bits < 8 * (2 * hl + 2) + 1:
+                    continue      # EMSA-PSS needs emLen >= hLen + sLen + 2
+                for form in ("compact", "flat"):
+                    ctx.ev()
+                    o = call(j.jws.serialize_compact, {"alg": a}, payload, priv, algorithms=[a]) if form == "compact" else \
+                        call(j.jws.serialize_json, {"protected": {"alg": a}}, payload, priv, algorithms=[a])
+                    ctx.count("produced")
+                    ctx.count("unusual_rsa_roundtrips")
+                    ctx.nontrivial(("unusual-rsa", kind, rep, a, form))
+                    ctx.cell("unusual-rsa", kind, a)
+                    case = {"unusual_rsa": True, "kind": kind, "rep": rep, "alg": a, "form": form}
+                    if not o.ok:
+                        ctx.violation(f"produce-fails:{o.key}", f"{a} with an RSA key {kind} ({rep}): {o.exc!r}", case)
+                        continue
+                    d = call(j.jws.deserialize_compact if form == "compact" else j.jws.deserialize_json, copy.deepcopy(o.value), pub, algorithms=[a])
+                    ctx.count("verified")
+                    if not d.ok or d.value.payload != payload:
+                        ctx.violation(f"roundtrip-fails:{d.key}", f"{a} token signed with an RSA key {kind} ({rep}) does not verify with its public key: {d.exc!r}", {**case, "token": o.value})
+
+
 def run_shard(ctx):
     J.load()
     rng = ctx.rng
@@ -344,6 +378,8 @@ def run_shard(ctx):
         detach_collisions(ctx, rng)
     if ctx.shard == 4:
         headers_equal_as_python_values(ctx, rng)
+    if ctx.shard == 5:
+        unusual_rsa_roundtrip(ctx, rng)
     forced = forced_cells(ctx.tier)
     for idx, kw in enumerate(forced):
         if idx % ctx.nshards != ctx.shard:
@@ -370,6 +406,8 @@ REQUIRE = [("produced", 200, "tokens produced"), ("verified", 200, "tokens verif
 
 def replay(ctx, case):
     J.load()
+    if case.get("unusual_rsa"):
+        return unusual_rsa_roundtrip(ctx, ctx.rng)
     if case.get("equal_headers"):
         return headers_equal_as_python_values(ctx, ctx.rng)
     d = case["cell"]
